@@ -7,7 +7,17 @@ ROOT = os.path.dirname(os.path.dirname(os.path.abspath(__file__)))
 NOTE = ("Trusted base: TLC/SANY 1.8.0 + CommunityModules, rustc/cargo, the harness element types and "
         "projections (vh), serde_json. The TLA+ operators in spec/ are the oracle; Rust only produces and compares.")
 
+TRACE_TECH = "TLA+ spec (ring-generic operators over Z_P) with its laws model-checked by TLC on the spec; calls recorded from the real code on exact-rational/integer operands validated by TLC trace validation (code->spec conformance), both storage layouts"
+
 CLAIMS = {
+ "C01": dict(
+  technique=TRACE_TECH,
+  text=("TLC model-checks the ring laws of the specification's matrix operators (identity, associativity, transpose of a product, row-vector form, bilinearity, adjugate identities) "
+        "exhaustively over Z_2/Z_3 for 2x2 and on random operand tuples over Z_46337 for 2x2, 3x3, 4x4. Every product and element-wise operator form of the real code "
+        "(sizes 2,3,4; layout pairs rr, cc, rc, cr; owned and compound-assignment; matrix*vector, vector*matrix, scalar forms, identity/zero/one/default/is_zero, the six Vec4-as-Mat2 helpers) "
+        "is executed on exact rationals and on i32/i64/f32/f64, recorded, and each record is recomputed by TLC from the specification. Inputs are sampled, so 'for all inputs' is "
+        "reached in the Schwartz-Zippel sense, not symbolically."),
+  design="§6 C01, §12"),
  "C17": dict(
   technique="TLA+ spec (VekOps/VekOpsAlgo) model-checked by TLC exhaustively per bit width; TLC-emitted result tables replayed into the real code (spec->code conformance)",
   text=("TLC checks exhaustively (every (x,lo,hi) of 5-bit types in quick, 8-bit in thorough) that the declarative operators satisfy the range laws of the "
